@@ -128,6 +128,187 @@ func (r *ruler) helperRules() {
 	}
 }
 
+// releaseSites (V23): who may release a context. A context goes to the free
+// list through deleteContext only, and deleteContext is called by the handlers
+// of the run loop (DCONT / RCONT, which look the context up in its parent's
+// table and unregister it: V8) and by its own recursion over the children. A
+// release anywhere else -- the error report walking the failing chain, a
+// driver tidying up -- frees a context that is still registered with its
+// parent or is freed again by the recursion, and the free list then hands one
+// context to two live iterators (seeds C02-Q, C08-Q).
+func (r *ruler) releaseSites() {
+	p := r.m.P
+	sp := p.SPkg("vm")
+	del := sp.Func("deleteContext")
+	if del == nil {
+		return // reported by V16
+	}
+	ctxPtrT := r.m.VarOf["ctxp"].Type()
+	isCtx := func(v ssa.Value) bool {
+		if mi, ok := v.(*ssa.MakeInterface); ok {
+			v = mi.X
+		}
+		return types.Identical(v.Type(), ctxPtrT)
+	}
+	within := func(fn, outer *ssa.Function) bool {
+		for f := fn; f != nil; f = f.Parent() {
+			if f == outer {
+				return true
+			}
+		}
+		return false
+	}
+	var bad []string
+	nCalls, nPush := 0, 0
+	for fn := range ssautil.AllFunctions(p.SSA) {
+		if fn.Pkg == nil || !strings.HasPrefix(fn.Pkg.Pkg.Path(), load.ModPath) || fn.Blocks == nil {
+			continue
+		}
+		for _, b := range fn.Blocks {
+			for _, ins := range b.Instrs {
+				var cc *ssa.CallCommon
+				switch x := ins.(type) {
+				case *ssa.Call:
+					cc = &x.Call
+				case *ssa.Defer:
+					cc = &x.Call
+				case *ssa.Go:
+					cc = &x.Call
+				default:
+					// deleteContext taken as a value escapes the rule
+					for _, op := range ins.Operands(nil) {
+						if *op == ssa.Value(del) {
+							bad = append(bad, p.Pos(ins.Pos())+": deleteContext is taken as a function value in "+p.FuncKey(fn))
+						}
+					}
+					continue
+				}
+				callee := cc.StaticCallee()
+				if callee == del {
+					nCalls++
+					if !within(fn, del) && !within(fn, r.m.Run) {
+						bad = append(bad, p.Pos(ins.Pos())+": "+p.FuncKey(fn)+" releases a context")
+					}
+					continue
+				}
+				if callee != nil && callee.Pkg != nil && callee.Pkg.Pkg.Path() == "container/list" && (callee.Name() == "PushFront" || callee.Name() == "PushBack" || callee.Name() == "InsertBefore" || callee.Name() == "InsertAfter") {
+					for _, a := range cc.Args {
+						if isCtx(a) {
+							nPush++
+							if !within(fn, del) {
+								bad = append(bad, p.Pos(ins.Pos())+": "+p.FuncKey(fn)+" puts a context on a list itself")
+							}
+						}
+					}
+				}
+			}
+		}
+	}
+	key := "vm / contexts are released by the run loop's destruction protocol only"
+	switch {
+	case len(bad) > 0:
+		sort.Strings(bad)
+		r.s.Bad("V23", key, strings.SplitN(bad[0], ": ", 2)[0], "a context may only be released by DCONT / RCONT (which unregister it from its parent, V8) and by deleteContext's own recursion; a release anywhere else frees a context that is still registered or is freed again by the recursion, and the free list hands it to two live iterators: "+strings.Join(bad, "; "))
+	case nCalls < 3 || nPush < 1:
+		r.s.Unk("V23", key, r.pos, fmt.Sprintf("expected the two handlers and the recursion to call deleteContext and deleteContext to push onto the free list; found %d call(s), %d push(es)", nCalls, nPush))
+	default:
+		r.s.OK("V23", key, r.pos, fmt.Sprintf("%d calls of deleteContext (run loop and recursion), %d push onto the free list (inside deleteContext)", nCalls, nPush))
+	}
+}
+
+// memoryUsers (O7, module wide): the state of a program -- its variables, its
+// stacks -- is changed by executing its code and by nothing else. The per
+// handler part of O7 shows that inside the run loop only MOV and INC write
+// variables; this part shows that nobody outside does: every call of a method
+// of memory.Type lies in package memory or package vm, and the two variable
+// writers (the methods MOV's destination switch calls) are called from the run
+// loop only. A driver that plants a value between two statements (the REPL's
+// "ans", seed C16-Q) makes the modes differ and a session depend on how it was
+// entered.
+func (r *ruler) memoryUsers() {
+	p := r.m.P
+	memPkg := p.SPkg("memory")
+	if memPkg == nil {
+		r.s.Unk("ANCHOR", "package memory", "-", "not found")
+		return
+	}
+	// the variable writers: the methods the MOV handler stores through
+	writers := map[string]bool{}
+	for _, pa := range r.m.Paths["MOV"] {
+		for _, ev := range pa.Events {
+			if ev.Kind == "call" && strings.Contains(ev.Fn, "memory.Type).Set") {
+				writers[ev.Fn[strings.LastIndex(ev.Fn, ".")+1:]] = true
+			}
+		}
+	}
+	var bad []string
+	n, nw := 0, 0
+	for fn := range ssautil.AllFunctions(p.SSA) {
+		if fn.Pkg == nil || !strings.HasPrefix(fn.Pkg.Pkg.Path(), load.ModPath) || fn.Blocks == nil {
+			continue
+		}
+		inMem := fn.Pkg == memPkg
+		inVM := fn.Pkg == r.m.Run.Pkg
+		inRun := false
+		for f := fn; f != nil; f = f.Parent() {
+			if f == r.m.Run {
+				inRun = true
+			}
+		}
+		for _, b := range fn.Blocks {
+			for _, ins := range b.Instrs {
+				var cc *ssa.CallCommon
+				switch x := ins.(type) {
+				case *ssa.Call:
+					cc = &x.Call
+				case *ssa.Defer:
+					cc = &x.Call
+				case *ssa.Go:
+					cc = &x.Call
+				}
+				var callee *ssa.Function
+				if cc != nil {
+					callee = cc.StaticCallee()
+				} else {
+					// a method value (m.SetGlobal taken as a function) escapes the rule
+					for _, op := range ins.Operands(nil) {
+						if f, ok := (*op).(*ssa.Function); ok && f.Pkg == memPkg && f.Signature.Recv() != nil && !inMem {
+							if mc, isMC := ins.(*ssa.MakeClosure); !isMC || mc.Fn != *op {
+								bad = append(bad, p.Pos(ins.Pos())+": "+p.FuncKey(fn)+" takes the memory method "+f.Name()+" as a value")
+							}
+						}
+					}
+					continue
+				}
+				if callee == nil || callee.Pkg != memPkg || callee.Signature.Recv() == nil {
+					continue
+				}
+				n++
+				switch {
+				case inMem:
+				case !inVM:
+					bad = append(bad, p.Pos(ins.Pos())+": "+p.FuncKey(fn)+" calls memory."+callee.Name()+" from outside the VM")
+				case writers[callee.Name()]:
+					nw++
+					if !inRun {
+						bad = append(bad, p.Pos(ins.Pos())+": "+p.FuncKey(fn)+" writes a variable ("+callee.Name()+") outside the run loop")
+					}
+				}
+			}
+		}
+	}
+	key := "module / program state is changed by the run loop only"
+	switch {
+	case len(bad) > 0:
+		sort.Strings(bad)
+		r.s.Bad("O7", key, strings.SplitN(bad[0], ": ", 2)[0], "variables and stacks of a program may be changed by executing its code only (inside vm.Run: MOV and INC write variables); a write from anywhere else makes what a statement sees depend on who ran the statements before it: "+strings.Join(bad, "; "))
+	case len(writers) < 2 || nw < 2 || n < 20:
+		r.s.Unk("O7", key, r.pos, fmt.Sprintf("expected MOV to store through two variable writers of memory.Type and at least 20 calls of memory methods in the module; found %d writer(s), %d writer call(s), %d call(s)", len(writers), nw, n))
+	default:
+		r.s.OK("O7", key, r.pos, fmt.Sprintf("%d calls of memory.Type methods, all in packages memory and vm; the %d calls of the variable writers are in the run loop", n, nw))
+	}
+}
+
 func (r *ruler) okIf(rule, key string, pa *Path, ok bool, good, bad string) {
 	if ok {
 		r.s.OK(rule, key, r.ppos(pa), good)
